@@ -41,7 +41,7 @@ REQUIRED_COUNTERS = ['bound_pair_deliveries', 'timed_schedules_checked', 'clock_
 
 
 def plan(tier):
-    return dict(cases=4000 if tier == 'quick' else 60000, shards=16, timeout=900 if tier == 'quick' else 3600)
+    return dict(cases=5000 if tier == 'quick' else 60000, shards=16, timeout=900 if tier == 'quick' else 3600)
 
 
 def chart(timed=False, sends=False):
@@ -80,7 +80,7 @@ def line_functions():
 
 def gen_scenario(rnd):
     """Client programs as data.  ops: ('queue', uid, delay) ('pause',) ('unpause',) ('idle', n) ('stop',)"""
-    kind = rnd.choice(('events', 'events', 'lifecycle', 'lifecycle', 'final', 'mixed', 'timed', 'timed'))
+    kind = rnd.choice(('events', 'events', 'lifecycle', 'lifecycle', 'lifecycle', 'lifecycle', 'final', 'mixed', 'timed', 'timed'))
     nclients = rnd.choice((1, 2, 2, 3)) if kind != 'lifecycle' else rnd.choice((2, 2, 3))
     uid = [0]
 
@@ -134,6 +134,10 @@ def gen_scenario(rnd):
     extra_stop = kind == 'lifecycle' and rnd.random() < 0.5       # a second client also calls stop() (stop || pause race)
     if extra_stop and nclients >= 2:
         progs[1].append(('stop',))
+        # ... while the other clients are still pausing / unpausing (a pause() that lands inside that stop())
+        for c in range(nclients):
+            if c != 1:
+                progs[c] += [rnd.choice((('pause',), ('pause',), ('unpause',))) for _ in range(rnd.randint(1, 3))]
     pre_queued = [q((0, 5, 10)) for _ in range(rnd.randint(0, 3))]       # queued before start()
     return dict(kind=kind, progs=progs, final=(kind == 'final'), execute_all=rnd.random() < 0.35, pre_queued=pre_queued,
                 interval=0.0,
